@@ -5,6 +5,9 @@ package main
 import (
 	"encoding/json"
 	"fmt"
+	"go/ast"
+	"go/token"
+	"go/types"
 	"os"
 	"path/filepath"
 	"sort"
@@ -208,6 +211,7 @@ func runCheck(repo, verif, prop, tier string, seed int) int {
 	}
 	lemmaObls, lemmaNames := e.lemmaObligations(prop)
 	all = append(all, lemmaObls...)
+	all = append(all, e.immutableObligations(prop)...)
 	e.dischargeAll(all, vcdir, timeout, thorough)
 
 	// verdicts
@@ -295,6 +299,9 @@ func runCheck(repo, verif, prop, tier string, seed int) int {
 			assumedContracts = append(assumedContracts, cu)
 		} else if k.Trusted != "" {
 			trusted = append(trusted, cu+" (trusted: "+k.Trusted+")")
+		}
+		if len(k.Hides) > 0 {
+			trusted = append(trusted, cu+" (frame assumption: effects on "+strings.Join(k.Hides, ", ")+" are not visible to callers: "+k.HidesWhy+")")
 		}
 	}
 	sort.Strings(assumedContracts)
@@ -445,4 +452,111 @@ func (e *Engine) lemmaObligations(prop string) ([]*Oblig, []string) {
 		names = append(names, f[0])
 	}
 	return obls, names
+}
+
+// immutableObligations: one obligation per field declared immutable for this property; decided by a scan of the typed AST
+// (assignments, inc/dec, address-of, composite literals) of every package of the module.
+func (e *Engine) immutableObligations(prop string) []*Oblig {
+	var out []*Oblig
+	for _, im := range immutables {
+		if !hasTag(im.Tags, prop) {
+			continue
+		}
+		t := e.typeByName(im.Type)
+		if t == nil {
+			out = append(out, &Oblig{Name: "immutable:" + im.Type, Kind: "static", Func: im.Type, Verdict: "error", Solver: "go/types scan",
+				Output: "unknown type " + im.Type, Pos: token.Position{Filename: im.File, Line: im.Line}})
+			continue
+		}
+		st, _ := t.Underlying().(*types.Struct)
+		for _, fname := range im.Fields {
+			o := &Oblig{Name: "immutable:" + im.Type + "." + fname + "(written only in " + im.In + ")", Kind: "static", Func: im.Type,
+				Verdict: "unsat", Solver: "go/types scan", Pos: token.Position{Filename: im.File, Line: im.Line}, Tags: im.Tags}
+			var fv *types.Var
+			if st != nil {
+				for i := 0; i < st.NumFields(); i++ {
+					if st.Field(i).Name() == fname {
+						fv = st.Field(i)
+					}
+				}
+			}
+			if fv == nil {
+				o.Verdict, o.Output = "error", "no such field"
+			} else if pos, what := e.fieldWrittenOutside(fv, t, im.In); what != "" {
+				o.Verdict = "sat"
+				o.Output = what
+				o.Pos = pos
+			}
+			out = append(out, o)
+		}
+	}
+	return out
+}
+
+func (e *Engine) fieldWrittenOutside(fv *types.Var, owner types.Type, allowed string) (token.Position, string) {
+	var pos token.Position
+	what := ""
+	report := func(p *Pkg, n ast.Node, w string) {
+		if what == "" {
+			pos = p.Fset.Position(n.Pos())
+			what = w + " at " + shortFile(pos.Filename) + ":" + fmt.Sprint(pos.Line)
+		}
+	}
+	for _, p := range e.pkgs {
+		for _, f := range p.Syntax {
+			if strings.HasSuffix(p.Fset.Position(f.Pos()).Filename, "_test.go") {
+				continue
+			}
+			for _, d := range f.Decls {
+				fd, ok := d.(*ast.FuncDecl)
+				inAllowed := false
+				if ok {
+					if fo, ok := p.TypesInfo.Defs[fd.Name].(*types.Func); ok && funcKey(fo) == allowed {
+						inAllowed = true
+					}
+				}
+				isField := func(x ast.Expr) bool {
+					se, ok := unparen(x).(*ast.SelectorExpr)
+					if !ok {
+						return false
+					}
+					return p.TypesInfo.Uses[se.Sel] == fv
+				}
+				ast.Inspect(d, func(n ast.Node) bool {
+					switch x := n.(type) {
+					case *ast.AssignStmt:
+						for _, l := range x.Lhs {
+							if isField(l) && !inAllowed {
+								report(p, x, "assignment to the field")
+							}
+						}
+					case *ast.IncDecStmt:
+						if isField(x.X) && !inAllowed {
+							report(p, x, "inc/dec of the field")
+						}
+					case *ast.UnaryExpr:
+						if x.Op == token.AND && isField(x.X) && !inAllowed {
+							report(p, x, "address of the field taken")
+						}
+					case *ast.CompositeLit:
+						tt := p.TypesInfo.TypeOf(x)
+						if tt == nil || !types.Identical(tt, owner) || inAllowed {
+							return true
+						}
+						for _, el := range x.Elts {
+							if kv, ok := el.(*ast.KeyValueExpr); ok {
+								if id, ok := kv.Key.(*ast.Ident); ok && p.TypesInfo.Uses[id] == fv {
+									report(p, kv, "composite literal sets the field")
+								}
+							} else {
+								report(p, x, "positional composite literal of the type")
+							}
+						}
+					}
+					return true
+				})
+			}
+		}
+	}
+	return pos, what
 }
